@@ -1,11 +1,12 @@
 (* A64Unw.v - the aarch64 unwinder instance. *)
-From FH Require Export Word A64 DwarfRow Cfi Unwinder A64Dwarf DwarfCb.
+From FH Require Export Word A64 DwarfRow Cfi Unwinder A64Dwarf DwarfCb Macho MachoCb.
 Open Scope N_scope.
 
 Inductive amdata :=
 | AMNone
 | AMDwarf (p : pres) (sec : list fde)
-| AMPe.                       (* PE module on aarch64: PeUnwinderError::Aarch64Unsupported *)
+| AMPe                        (* PE module on aarch64: PeUnwinderError::Aarch64Unsupported *)
+| AMMacho (d : macho_data).
 
 Definition amodule := module amdata.
 
@@ -16,6 +17,9 @@ Definition cb_a64 (md : amodule) (first : bool) (rel : N) (rg : aregs) (m : mem)
   | AMDwarf p sec =>
     cb_dwarf arule aregs row_step_a64 uncovered_rule_a64 true p sec (base_svma md) first rel rg m
   | AMPe => (CbErr rg, no_eff)
+  | AMMacho d =>
+    cb_macho arule aregs row_step_a64 uncovered_rule_a64 a64_macho_unwind ANoOp ANoOp a64_stub_helper_rule
+             d (base_svma md) first rel rg m
   end.
 
 Definition aunwinder := unwinder amdata.
